@@ -144,7 +144,7 @@ class Ctx(object):
         in one shard (used for stateful traces)."""
         if not events:
             return []
-        shard = max(300, min(shard * 2, -(-len(events) // NCPU)))
+        shard = max(300, min(shard * 3, -(-len(events) // NCPU)))
         shards = []
         if group is None:
             for i in range(0, len(events), shard):
